@@ -543,8 +543,8 @@ func lexTagOpen(l *lexer) stateFn {
 
 // verbatimOpenMatcher matches the remainder of a verbatim tag, verbatimCloseMatcher its end tag.
 var (
-	verbatimOpenMatcher  = regexp.MustCompile(`^[ \t\n]*verbatim[ \t\n]*-?%}`)
-	verbatimCloseMatcher = regexp.MustCompile(`{%-?[ \t\n]*endverbatim[ \t\n]*-?%}`)
+	verbatimOpenMatcher  = regexp.MustCompile(`^[ \t\r\n]*verbatim[ \t\r\n]*-?%}`)
+	verbatimCloseMatcher = regexp.MustCompile(`{%-?[ \t\r\n]*endverbatim[ \t\r\n]*-?%}`)
 )
 
 // lexVerbatim emits everything up to the endverbatim tag as a single text token,
@@ -604,7 +604,7 @@ func lexPrintClose(l *lexer) stateFn {
 }
 
 func isSpace(str string) bool {
-	return str == " " || str == "\t" || str == "\n"
+	return str == " " || str == "\t" || str == "\n" || str == "\r"
 }
 
 func isName(str string) bool {
